@@ -1633,7 +1633,7 @@ def run(chk):
                        "distinct key = (stream, function, shape, rank request, options, value class); non-trivial = more than one entry")
     chk.assumptions = ["exact-arithmetic semantics: floating-point rounding is not modelled (products compared with tolerance 1e-9)",
                        "numpy.linalg.svd is an oracle: its recorded answers are handed to the model; the theorems assume the SVD contract for the answers of a run",
-                       "error bounds relative to the spectrum of the unfoldings of X rest on Eckart-Young / interlacing as named hypotheses (theorems *_partial)",
+                       "lower bounds relative to the spectrum of the unfoldings of X are full theorems (Eckart-Young proved, C09_eckart_young); the TT root-sum-square upper bound and the HOOI bound still rest on named hypotheses (working_tails_le_x_tails / not proved)",
                        "predicate thresholds: exact = 1e-9 relative; bounds with factor (1 +- 1e-8) and floor 1e-9 ||X||"]
     chk.trusted += ["numpy.linalg.svd (LAPACK gesdd) as SVD oracle for the implementation and, independently, for the predicates' singular values",
                     "NumPy reshape/transpose/moveaxis as modelled in Base/Tensor.v; n-mode product modelled at index level (Model/SvdDecomp.v mode_dot)",
